@@ -154,6 +154,9 @@ STR_POOL = [
     "日本", "ctrl\x01x", "del\x7f", "c1\x85x", "a;b", "1abc", "NULL", "null", "End_Group", "/* c */", "a=b",
     "sym bol", "q\"uote and\nnewline", "q\"uote and\ttab", "dash-\n  cont", "-", "a+b", "1e5", "2001-01-01",
     ("word " * 30).strip() + ' "q"',
+    # 41..79 characters, no apostrophe, need quotes (spaces / '-'): longer than half of the default width 80
+    ("abcd " * 9).strip()[:41], ("symbol words " * 4).strip()[:45], ("some longer symbol text " * 3).strip()[:60],
+    ("seventy nine characters of text " * 3).strip()[:79], "x-" * 22 + "x", "tab\tin the middle of a longer text string of 55 chars..",
 ]
 
 NUM_POOL = [0, -1, 255, 12345678901234567890, F(1.5), F(-0.0), F(1e100), F(1e-7), F("inf"), F("nan"),
@@ -171,7 +174,7 @@ QUANT_POOL = [
     ["quantity", 5, "m"], ["quantity", F(1.5), "km/s"], ["quantity", 5, "m**2"], ["quantity", "abc", "m"],
     ["quantity", True, "m"], ["quantity", None, "m"], ["quantity", ["list", [1, 2]], "m"], ["quantity", 5, "bad unit!"],
     ["quantity", F("inf"), "m"], ["quantity", 5, ""], ["quantity", 5, "a b"], ["quantity", ["date", 2001, 1, 1], "d"],
-    ["quantity", 5, "m>"],
+    ["quantity", 5, "m>"], ["quantity", F(2.5), "deg\t/ s"], ["quantity", 5, "\tm"],
 ]
 
 SEQ_POOL = [
@@ -187,6 +190,12 @@ SEQ_POOL = [
     ["set", []], ["set", [1, 2]], ["set", ["a", "b"]], ["set", [F(1.5)]], ["set", ["a b", "c d"]],
     ["frozenset", [1]], ["set", ["x" * 45]], ["set", [["frozenset", [1]]]],
     ["set", ["a b", "c d", "e f", "g h", "i j", "k l", "m n", "o p", "q r", "s t", "u v", "w x"]],
+    # tabs anywhere but in a plain scalar string
+    ["list", ["tab\there", "no tab"]], ["list", [["list", ["a\tb", 1]], ["list", ["c", "\t"]]]], ["set", ["tab\there"]],
+    ["list", [["quantity", F(2.5), "deg\t/ s"], 1]], ["list", ["sym bol", "tab\t" + "x" * 50]],
+    # sequences of quote-needing strings longer than half of the default width
+    ["list", [("symbol words " * 4).strip()[:45]] * 3], ["list", [("some longer symbol text " * 3).strip()[:60], "short one"]],
+    ["set", [("symbol words " * 4).strip()[:45], ("abcd " * 9).strip()[:41]]],
 ]
 
 VALUE_POOL = [None, True, False] + NUM_POOL + STR_POOL + TIME_POOL + QUANT_POOL + SEQ_POOL
